@@ -694,7 +694,10 @@ fn one_run(i: usize, run_seed: u64, b: &Budget) -> RunOut {
         };
         evals += 1;
         let th = sched::trace_hash(&ex.trace);
-        if ex.nondeterministic {
+        if ex.free_run {
+            // supplementary real-parallel execution: judged like any other, but its trace is not part
+            // of the deterministic event log
+        } else if ex.nondeterministic {
             out.count("probe.baton_taken_from_thread_blocked_outside_model", 1);
             out.nondet = true;
         } else {
@@ -706,10 +709,12 @@ fn one_run(i: usize, run_seed: u64, b: &Budget) -> RunOut {
         out.count("decisions", ex.choices.len() as u64);
         out.count("decisions_with_choice", ex.enabled_counts.iter().filter(|&&c| c > 1).count() as u64);
         probes(&ex.trace, &mut out);
-        if sched::has_overlap(&ex.trace, scn.threads.len()) {
+        if !ex.free_run && sched::has_overlap(&ex.trace, scn.threads.len()) {
             out.distinct.push(prng::mix(th, util::h64(scn.to_json().to_string().as_bytes()), 0));
         }
-        out.distinct_in("schedules", prng::mix(th, util::h64(scn.to_json().to_string().as_bytes()), 1));
+        if !ex.free_run {
+            out.distinct_in("schedules", prng::mix(th, util::h64(scn.to_json().to_string().as_bytes()), 1));
+        }
         if let Some((class, part, detail)) = &ex.bad {
             out.violations.push(violation(&scn, &ex, class, part, detail));
             log.str(class);
